@@ -85,7 +85,7 @@ func (e *signhistEngine) Gen(seed uint64, tier string, run int) *Trace {
 			c.Other.Trailing = or.Range(1, 7) // a size that is not a multiple of 8 more often
 		}
 	}
-	c.Reader = Pick(r.Fork("reader"), []string{"", "", "", "bytes", "sniffed", "section"})
+	c.Reader = Pick(r.Fork("reader"), []string{"", "", "", "bytes", "sniffed", "section", "seekable", "eofdata"})
 	// swarm: key subset of this run (keeps collisions and repeats frequent)
 	var keys []int
 	switch r.Intn(8) {
@@ -263,6 +263,11 @@ func shExec(c shCfg, ops []shOp, x *X) {
 		br.Read(magic[:]) // positional reads do not care where the sequential cursor is
 		medium = br
 		x.Probe("reader_already_read_from")
+	case "seekable":
+		medium = &SimReadSeeker{SimReader: &SimReader{data: orig}}
+	case "eofdata":
+		medium = &SimReader{data: orig, EOFWithData: true}
+		x.Probe("reader_reports_eof_with_the_last_bytes")
 	case "section":
 		big := append(append(bytes.Repeat([]byte{0xCC}, 4096+len(orig)%97), orig...), bytes.Repeat([]byte{0xDD}, 333)...)
 		medium = io.NewSectionReader(bytes.NewReader(big), int64(4096+len(orig)%97), int64(len(orig)))
@@ -437,7 +442,12 @@ func shCheck(x *X, i int, kind string, st *shState, bin *authenticode.PECOFFBina
 		sigErr = err
 		nsigs = len(sigs)
 		for _, s := range sigs {
-			sigBlobs = append(sigBlobs, s.Certificate)
+			sigBlobs = append(sigBlobs, append([]byte(nil), s.Certificate...))
+			// what Signatures() hands out is the caller's: it is wiped here (up to its capacity), and the image must not notice
+			full := s.Certificate[:cap(s.Certificate)]
+			for k := range full {
+				full[k] = 0xEE
+			}
 		}
 	}()
 	if pv != nil {
